@@ -134,6 +134,17 @@ def _mid_lanes(case, ctx):
             s2 = float(np.asarray(stats.estimate_scale(np.ascontiguousarray(y[:, 0]), method)).ravel()[0])
             sa = np.asarray(stats.estimate_scale(x, method, 0), dtype=np.float64).ravel()
             sl = float(np.asarray(stats.estimate_scale(np.ascontiguousarray(x[:, 1]), method)).ravel()[0])
+        if method in ("sn", "qn", "mad", "iqr", "gapper"):
+            # the same lane on a pedestal of 2^22 (sums stay exact in single precision): estimators built on differences, order statistics
+            # and medians do not see the pedestal
+            with np.errstate(all="ignore"):
+                s3 = float(np.asarray(stats.estimate_scale((x[:, 0].astype(np.float64) + 4194304.0).astype(np.float32), method)).ravel()[0])
+                xs = np.round(x[:, 1].astype(np.float64) / 100.0)                  # the same for a lane whose spread (a few units) is tiny against the pedestal
+                s4 = float(np.asarray(stats.estimate_scale(xs.astype(np.float32), method)).ravel()[0])
+                s5 = float(np.asarray(stats.estimate_scale((xs + 4194304.0).astype(np.float32), method)).ravel()[0])
+            ctx.count("pedestal_checks")
+            if abs(s3 - s1) > 1e-6 * s1 or abs(s5 - s4) > 1e-6 * max(s4, 1e-30):
+                ctx.violation(f"scale-not-translation-invariant:mid-lanes:{method}", f"n={n}: scale(x + 2^22) = {s3!r}, scale(x) = {s1!r}; small-spread lane {s5!r} vs {s4!r}", one); return
         if not (np.isfinite(s1) and s1 > 0):
             ctx.violation(f"scale-not-positive:mid-lanes:{method}", f"scale of {n} non-constant samples is {s1!r}", one); return
         if s1b != s1:
